@@ -71,6 +71,7 @@ def rich_doc(rng, variant: int, kind: str = "single", nfig: int = 2) -> dict:
                 "col_rel_width": [1 + ((j + variant) % 3) for j in range(ncols)]}
 
     rec = {"kind": kind, "page": {"border_first": bstyle, "border_last": ("double", "single")[variant % 2],
+                                  "orientation": ("portrait", "landscape", "portrait")[variant % 3],
                                   "nrow": (6, 8)[variant % 2] if kind != "figure" else 10,
                                   "page_title": ("all", "first")[variant % 2], "page_footnote": ("last", "all")[variant % 2]},
            "title": {"text": [rng.choice(LATEX_TEXTS), "Table 14.1." + str(variant)], "text_color": [pals[1]],
@@ -92,7 +93,7 @@ def rich_doc(rng, variant: int, kind: str = "single", nfig: int = 2) -> dict:
     rec["dfs"], rec["bodies"], hdrs = [], [], []
     for s in range(nsec):
         n = 3 if (s + variant) % 2 == 0 else 2
-        rec["dfs"].append(frame(n, (7, 9)[variant % 2] if s == 0 else 3))
+        rec["dfs"].append(frame(n, (15, 19)[variant % 2] if s == 0 else 3))  # three or more pages
         rec["bodies"].append(body(n))
         hdrs.append([{"text": [rng.choice(LATEX_TEXTS) for _ in range(n)], "text_color": [[pals[0]]],
                       "text_convert": [[conv]], "border_bottom": [[bstyle]]}])
@@ -858,6 +859,19 @@ def _finish_job(plan, refs, res, idx, ws, max_minimise=2) -> dict:
     out = summarise(plan, res, refs, idx)
     out["violations"] = []
     if vs:
+        try:
+            _report_violation(plan, refs, res, idx, ws, max_minimise, vs, out)
+        except Exception:  # noqa: BLE001 - never let classification swallow the violation itself
+            v = dict(vs[0])
+            v.pop("_text", None)
+            out["violations"].append({"v": v, "sig": signature(v), "plan": explicit(plan, res), "seed_idx": idx})
+    return out
+
+
+def _report_violation(plan, refs, res, idx, ws, max_minimise, vs, out):
+    from .histories import diff_class
+
+    if True:
         v = vs[0]
         eplan = explicit(plan, res)
         if ws["minimised"] < max_minimise and v["class"] != "deadlock":
@@ -931,7 +945,7 @@ def summarise(plan, res, refs, idx) -> dict:
         "trace_mode": plan.get("trace_mode"), "doc_mode": plan.get("doc_mode"),
         "sample": {"decider": plan["decider"], "first": plan["first"], "decisions": res["decisions"][:12],
                    "switch_log": sl[:6], "docs": [R.recipe_traits(r) for r in plan["recipes"]],
-                   "thread_outcomes": [t["outcome"]["k"] for t in res["threads"]]} if idx < 3 else None,
+                   "thread_outcomes": [t["outcome"]["k"] for t in res["threads"]]} if (idx < 3 or idx % 1000 == 0) else None,
     }
 
 
@@ -1064,9 +1078,9 @@ def sweep_jobs(root: int, groups: list, refcache: RefCache, specs: list, hot_inf
 # batch
 # --------------------------------------------------------------------------
 
-TIERS = {"quick": {"runs": 1200, "wall": 420.0, "groups": 5, "hot_cap": 600, "hot3_cap": 100,
-                   "sweeps": [(0, "call", 16), (1, "call", 16), (2, "call", 6), (3, "call", 16), (4, "call", 16),
-                              (0, "line", 96)]},
+TIERS = {"quick": {"runs": 1000, "wall": 420.0, "groups": 5, "hot_cap": 600, "hot3_cap": 100,
+                   "sweeps": [(0, "call", 32), (1, "call", 32), (2, "call", 8), (3, "call", 32), (4, "call", 32),
+                              (0, "line", 256)]},
          "thorough": {"runs": 60000, "wall": 3000.0, "groups": 8, "hot_cap": 4000, "hot3_cap": 2500,
                       "sweeps": [(i, "callret", 1) for i in range(8)] + [(i, "line", 4) for i in range(8)]}}
 
@@ -1094,7 +1108,8 @@ def main(opts) -> int:
         else:
             hot_info[gi] = r
     sjobs = sweep_jobs(root, groups, rc, tier["sweeps"], hot_info, tier["hot_cap"], tier.get("hot3_cap", 400))
-    jobs = sjobs + [{"root": root, "idx": i} for i in range(runs)]
+    seeded = [{"root": root, "idx": i} for i in range(runs)]
+    jobs = seeded[:16] + sjobs + seeded[16:]  # a wall-cap truncation must not starve either kind
     results, truncated = core.pool_map(job, jobs, wall_cap=wall)
     herrs += [f"run {jobs[i].get('idx')}: {r['harness_error'][:600]}" for i, r in sorted(results.items())
               if "harness_error" in r]
